@@ -66,10 +66,16 @@ static int kwatches(void) {
   fi_on = on;
   return n;
 }
-static unsigned r0_, h0_; static int w0_;
+static int hq_count(void) {
+  struct uv__queue* q; int n = 0;
+  if (!loop_ok) return 0;
+  uv__queue_foreach(q, &L.handle_queue) n++;
+  return n;
+}
+static unsigned r0_, h0_; static int w0_, q0_;
 static void api_begin(const char* name) {
   fi_api = name;
-  if (loop_ok) { r0_ = L.active_reqs.count; h0_ = L.active_handles; w0_ = kwatches(); }
+  if (loop_ok) { r0_ = L.active_reqs.count; h0_ = L.active_handles; w0_ = kwatches(); q0_ = hq_count(); }
 }
 static int api_end(const char* name, int rc, int mode) {
   char sfx[64] = "";
@@ -79,6 +85,8 @@ static int api_end(const char* name, int rc, int mode) {
     if (dr) snprintf(sfx + strlen(sfx), 30, "!r%+d", dr);
     if (dh) snprintf(sfx + strlen(sfx), 30, "!h%+d", dh);
     if (kwatches() != w0_) snprintf(sfx + strlen(sfx), 30, "!w%+d", kwatches() - w0_);
+    /* a failed call must not leave a handle linked into the loop (uv_spawn does, by design: its handle has to be closed) */
+    if (hq_count() != q0_ && strncmp(name, "spawn", 5)) snprintf(sfx + strlen(sfx), 30, "!q%+d", hq_count() - q0_);
   }
   if (rc < 0) ev("%s=%s%s", name, uv_err_name(rc), sfx);
   else if (mode & 1) ev("%s=ok", name);
